@@ -265,6 +265,12 @@ Step(e, extra) ==
               IN d.status # rule
          THEN {"C13_StatusRule"} ELSE {})
         \cup
+        \* C07: "never-restart tasks fail on ANY loss": a never-restart task the server had reported as running on a worker gets
+        \* its outcome in the very reactor call that removes the worker - whatever the reason (failure, stop, idle timeout, time limit)
+        (IF \E x \in losts : \E t \in DOMAIN hist : t \in DOMAIN tinfo /\ tinfo[t].climit = -1 /\ ~HasTerminal(t) /\ ReportedOn(hist, t, x.w)
+               /\ ~(hist2[t] # <<>> /\ Last(hist2[t]).k \in Terminal)
+         THEN {"C07_NeverRestartFailsOnAnyLoss"} ELSE {})
+        \cup
         \* C01/C13: no event about a task that was never accepted
         (IF UnknownTaskEvents(hist0, e.ev) # {} THEN {"C01_UnknownTaskReported"} ELSE {})
         \cup
